@@ -31,6 +31,7 @@ struct Sched {
     bool deadlock = false, livelock = false, active = false;
     bool record = false; std::vector<Ev> log;
     bool yield_on_key_load = false;
+    bool daemon[MAXT] = {false};   // background loops (epoch / gc thread): never "finish" by themselves; at k_sleep they let workers run
     std::function<void(const char*)> on_abort;   // called on deadlock / livelock before the process exits
 } S;
 inline thread_local int tid = -1;
@@ -43,7 +44,7 @@ inline bool is_write(int k) {
 inline bool is_load_before(int k) {
     using namespace verif;
     return k == k_load || k == k_ver_load || k == k_perm_load || k == k_key_load || k == k_cas || k == k_run_load || k == k_begin_load ||
-           k == k_epoch_load || k == k_gc_load || k == k_stop_load;
+           k == k_epoch_load || k == k_gc_load || k == k_stop_load || k == k_begin_pre || k == k_sleep;
 }
 inline std::vector<int> runnable() { std::vector<int> r; for (int i = 0; i < S.n; i++) if (!S.done[i] && !S.parked[i]) r.push_back(i); return r; }
 inline void handoff(int me, int nx) {
@@ -106,7 +107,14 @@ inline void hook(int kind, const void* obj, std::uint64_t a, std::uint64_t b) {
         return;
     }
     int nx;
-    if (S.idle > S.idle_quantum) {
+    if (kind == verif::k_sleep && S.daemon[me] && S.strat == PCT) {   // a background loop going to sleep drops below everybody
+        int lo = 0; for (int i = 0; i < S.n; i++) lo = std::min(lo, S.prio[i]); S.prio[me] = lo - 1;
+    }
+    if (kind == verif::k_sleep && S.daemon[me] && S.strat == PLAN && S.pi >= S.plan.size()) {
+        // plan exhausted: a sleeping background thread yields to any runnable worker
+        nx = me; for (int i = 1; i <= S.n; i++) { int c = (me + i) % S.n; if (!S.done[c] && !S.parked[c] && !S.daemon[c]) { nx = c; break; } }
+        if (nx == me) { for (int i = 1; i <= S.n; i++) { int c = (me + i) % S.n; if (!S.done[c] && !S.parked[c]) { nx = c; break; } } }
+    } else if (S.idle > S.idle_quantum) {
         // the running thread has been reading for a long time without anybody writing: it is busy-waiting for another
         // thread (retry loops without a pause instruction, e.g. "root flag cleared, new root not stored yet"); a fair
         // scheduler lets the others run.  Not a verdict: only the global step budget turns into a livelock report.
